@@ -197,6 +197,9 @@ def run(ctx, progs):
                 ok = arg_ok and neg_ok and ok_ok
                 d = f"exactly one {sysc}(fd, guard.as_ptr(), buf.len()) of the same buf [{arg_ok}]; negative => Err(last_os_error) [{neg_ok}]; otherwise Ok(result) [{ok_ok}]"
             ctx.ob("R13.5.raw_fd", b.key, ok, b.where(), d)
+        # ------------------------------------------------------------------ R13.4 default exact loops (shared with C14 R14.2)
+        from . import c14
+        c14.rule_exact_loops(ctx, prog, eff, rule="R13.4.default_exact_loop")
         fwd = 0
         for b in prog.bodies:
             if b.impl_trait in (RV, WV) and b.kind not in ("Closure", "Promoted") and b.name in ("read_volatile", "write_volatile"):
